@@ -1,6 +1,6 @@
 (** C12 — capture filters.  Property theorems only; proofs live in Proofs/. *)
 From Coq Require Import List ZArith Bool.
-From TR Require Import Lib.Bytes Bpf.Vm Spec.C12 Generated.BpfProgs Proofs.C12Exact Wire.Decode Drv.Drivers Run.Drv Drv.Handshake Proofs.Linking.
+From TR Require Import Lib.Bytes Bpf.Vm Spec.C12 Generated.BpfProgs Proofs.C12Exact Wire.Decode Drv.Drivers Run.Drv Drv.Handshake Proofs.Linking Generated.FilterUse.
 Import ListNotations.
 Open Scope Z_scope.
 
@@ -68,3 +68,11 @@ Theorem C12_synack_filter_accepts_every_handshake_segment c b v :
 Proof. exact (@linking_synack c b v). Qed.
 Print Assumptions C12_synack_filter_accepts_every_handshake_segment.
 
+(** tie kind A, regenerated on every run by tools/goextract/filteruse.go: the SetPacketFilter calls of the four entry
+    points, in source order, are the ones [installed_filter] (and the handshake theorem) assume — which filter type, with
+    the target as Src and the local endpoint as Dst *)
+Theorem C12_filter_use_tied :
+  fu_icmp_runICMPTraceroute = model_filter_use VIcmp /\ fu_udp_UDPv4_Traceroute = model_filter_use VUdp
+  /\ fu_tcp_TCPv4_Traceroute = model_filter_use VTcp /\ fu_sack_runSackTraceroute = model_filter_use VSack.
+Proof. repeat split; reflexivity. Qed.
+Print Assumptions C12_filter_use_tied.
